@@ -320,4 +320,25 @@ def hashInputOf (t : Tx) : Bytes :=
   | .eip e => e.enc
   | _ => serUnsigned t.unsigned
 
+/-! ## Well-formed field tuples (what the encoder may be given so that the decoder accepts its output) -/
+
+/-- the payload fits the transaction type and passes `validateDeployCode` -/
+def wfPayload (ty : UInt8) : Payload → Bool
+  | .invoke _ => ty == 0xd1 || ty == 0xd2
+  | .deploy c vm n v a e d => ty == 0xd0 && validateDeploy c vm n v a e d
+  | .eip _ => false
+
+/-- Decidable well-formedness of an Ontology-shape field tuple: version 0, type/payload match and deploy limits,
+integer widths, 20-byte payer, at most `TX_MAX_SIG_SIZE` signature entries, total size at most `MAX_TX_SIZE`. -/
+def wfFields (u : TxU) (sigs : List (Bytes × Bytes)) : Bool :=
+  u.version == 0 && wfPayload u.txType u.payload &&
+  decide (u.nonce < 256 ^ 4) && decide (u.gasPrice < 256 ^ 8) && decide (u.gasLimit < 256 ^ 8) &&
+  u.payer.length == 20 && decide (sigs.length ≤ TX_MAX_SIG_SIZE) &&
+  decide ((serUnsigned u ++ serSigs sigs).length ≤ MAX_TX_SIZE)
+
+/-- the `Transaction` the decoder builds for a field tuple -/
+def mkTx (u : TxU) (sigs : List (Bytes × Bytes)) : Tx :=
+  ⟨u.version, u.txType, u.nonce, u.gasPrice, u.gasLimit, u.payer, u.payload, sigs,
+   serUnsigned u ++ serSigs sigs, serUnsigned u⟩
+
 end OntVerif.Model.Tx
